@@ -30,17 +30,17 @@ def make_cases(rng, n):
     for j in range(n):
         rate = rng.choice(rxlib.STD_RATES + [96000]) if rng.chance(3, 4) else rng.range(8000, 96000)
         H = samegen.gen_header(rng, nloc=rng.choice([1, 1, 2, 8, 31]))
-        kind = rng.choice(["header3", "header3", "header2", "trailer", "trailer2"])
-        mask = {"header3": 0b000111, "header2": rng.choice([0b000011, 0b000101, 0b000110]), "trailer": 0b111111,
+        kind = rng.choice(["header3", "header3", "header2", "trailer", "trailer2", "lone-eom"])
+        mask = {"lone-eom": 0b001000, "header3": 0b000111, "header2": rng.choice([0b000011, 0b000101, 0b000110]), "trailer": 0b111111,
                 "trailer2": rng.choice([0b011111, 0b101111, 0b110111])}[kind]
         tx = rxlib.Tx(rng, H=H, rate=rate, mask=mask, gap_ht=rng.choice([2.0, 3.0]))
-        nb = 3 if kind.startswith("header") else 6
+        nb = 3 if kind.startswith("header") else (4 if kind == "lone-eom" else 6)
         # if the last burst of the group is absent, cut after the last PRESENT one
         while nb > 0 and not (mask >> (nb - 1)) & 1:
             nb -= 1
         cut = rng.choice([0.0, 0.0, 0.001, 0.01, 0.05, 0.2, 0.5, 1.0, 1.5])
         script = cut_script(tx, nb, cut)
-        want = ["som"] if kind.startswith("header") else ["som", "eom"]
+        want = ["som"] if kind.startswith("header") else (["eom"] if kind == "lone-eom" else ["som", "eom"])
         cases.append((kind, cut, tx, script, want))
     return cases
 
@@ -83,7 +83,7 @@ def run(ctx):
         fmsgs = [f for f in fl if f != "none"]
         for f in fmsgs:
             got.append(("eom", None) if f == "eom" else ("som", bytes.fromhex(f.split(":")[1])))
-        expect = [("som", tx.H)] + ([("eom", None)] if "eom" in want else [])
+        expect = ([("som", tx.H)] if "som" in want else []) + ([("eom", None)] if "eom" in want else [])
         bad = None
         f9 = (len(got) == len(expect) and got and got[0][0] == "som" and got[0][1] != tx.H and rxlib.f9_signature(got[0][1], tx.H)
               and got[1:] == expect[1:])
@@ -135,6 +135,31 @@ def run(ctx):
         else:
             reuse_ok += 1
     ctx.coverage["reuse_after_reset_ok"] = reuse_ok
+    # a second header heard while the alert of a first one is still open (no trailer was received for it), the recording cut at
+    # the second header's last burst: flushing must deliver the second header too
+    alert_ok = 0
+    alines, ameta = [], []
+    for j in range(3 if q else 24):
+        rate = rng.choice([8000, 11025, 22050])
+        A = samegen.gen_header(rng, nloc=rng.choice([1, 2])); B = samegen.gen_header(rng, nloc=rng.choice([1, 3]))
+        tx = rxlib.Tx(rng, H=A, rate=rate, impaired=False)
+        cut = rng.choice([0.0, 0.05, 0.5])
+        script = "S0.30,B%s,S1.00,B%s,S1.00,B%s,S%.2f,B%s,S1.00,B%s,S1.00,B%s%s" % (
+            (rxlib.burst_hex(A),) * 3 + (3.0 + rng.below(30) / 10.0,) + (rxlib.burst_hex(B),) * 3 + ((",S%.2f" % cut) if cut else "",))
+        alines.append(tx.line(script=script, extra="flush=4")); ameta.append((A, B, cut))
+    for (A, B, cut), r, line in zip(ameta, rxlib.run_rx(alines, check_model=False), alines):
+        if r.get("error"):
+            ctx.violation("harness-failure", r["error"][:200], {"input": line}); continue
+        got = [e["text"] for e in rxlib.parse_events(r["impl"]) if e["kind"] == "som"]
+        flushed = r["extras"].get("flushed", "-")
+        got += [bytes.fromhex(f.split(":")[1]) for f in ([] if flushed == "-" else flushed.split("/")) if f.startswith("som")]
+        if got != [A, B]:
+            ctx.violation("property", "a recording cut %.2f s after the last burst of a second header (heard while the first alert was still open): "
+                          "%d StartOfMessage(s) delivered by the run and flush(), expected both headers" % (cut, len(got)),
+                          {"input": line, "events": r["impl"][:2000], "flushed": flushed})
+        else:
+            alert_ok += 1
+    ctx.coverage["second_header_during_alert_flushed_ok"] = alert_ok
     # samedec on close-cut files
     sd_ok, sd_n = 0, 0
     exe = os.path.join(vlib.TARGET, "release", "samedec")
@@ -148,7 +173,7 @@ def run(ctx):
                 sd_n += 1
                 p = subprocess.run([exe, "-r", str(tx.rate), "--file", path] + child, stdout=subprocess.PIPE, stderr=subprocess.PIPE, timeout=300)
                 outl = p.stdout.decode("latin1").splitlines()
-                expect = [tx.H.decode("latin1")] + (["NNNN"] if "eom" in want else [])
+                expect = ([tx.H.decode("latin1")] if "som" in want else []) + (["NNNN"] if "eom" in want else [])
                 if p.returncode != 0 or outl != expect:
                     ctx.violation("property", "samedec%s on a recording cut %.3f s after the last burst printed %s, expected %s (exit %d) [%s]"
                                   % (" with a child process" if child else "", cut, [l[:20] for l in outl], [l[:20] for l in expect], p.returncode, kind),
